@@ -1,13 +1,13 @@
 package main
 
 import (
-	"os"
-	"time"
 	"fmt"
 	"math/rand"
+	"os"
 	"sort"
 	"strings"
 	"sync"
+	"time"
 
 	regexp2 "github.com/dlclark/regexp2/v2"
 
